@@ -8,6 +8,7 @@
 //!                  byte to stdout, `co` / `ce` close stdout / stderr, `q <code>` exit.
 //! `vchild emitn <tag> <n_out> <n_err> <code>` — n bytes of the cyclic pattern `tag` on stdout,
 //!                  its upper-case form on stderr, then exit <code> (C16 capture lifetimes).
+//! `vchild sleepy <ms> <read 0|1>` — optionally drains stdin, sleeps, prints `woke` (C16 timeouts).
 //! `vchild exit <code>` / `vchild echo <text>` — trivial helpers.
 
 use std::io::{BufRead, BufReader, Read, Write};
@@ -64,6 +65,16 @@ fn main() {
                 let _ = std::io::stderr().write_all(&pat(num(4)).iter().map(|b| b.to_ascii_uppercase()).collect::<Vec<u8>>());
             }
             std::process::exit(num(5) as i32);
+        }
+        // sleepy <ms> <read_stdin 0|1>: optionally drain stdin, sleep, print "woke", exit 0
+        "sleepy" => {
+            let ms: u64 = args.get(2).and_then(|a| a.to_string_lossy().parse().ok()).unwrap_or(0);
+            if args.get(3).is_some_and(|a| a.to_string_lossy() == "1") {
+                let mut sink = Vec::new();
+                let _ = std::io::stdin().read_to_end(&mut sink);
+            }
+            std::thread::sleep(std::time::Duration::from_millis(ms));
+            let _ = std::io::stdout().write_all(b"woke");
         }
         "echo" => {
             if let Some(a) = args.get(2) {
